@@ -13,7 +13,7 @@ from geometer.exceptions import LinearDependenceError, NotCoplanar
 
 from .. import common as C
 from .. import exact as X
-from ..runner import Batch, Checker, Fail, HarnessError, Law, Skip, call, exc_fail, mismatch
+from ..runner import Batch, Checker, Fail, HarnessError, Law, Skip, call, check_observed, exc_fail, mismatch, observe
 from .c01 import dual_plucker
 
 RULE = (
@@ -561,6 +561,12 @@ def run_degen(case):
         except Exception as e:  # noqa: BLE001
             ck.add(exc_fail(e, site))
             continue
+        # the masks of errors raised earlier (this case or the preceding ones) are still what they were
+        changed = check_observed(site)
+        if changed is not None:
+            ck.add(changed)
+        if raised is not None and raised[0] == "LDE" and isinstance(getattr(raised[1], "dependent_values", None), np.ndarray):
+            observe(site + ":dependent_values", raised[1].dependent_values)
         if npos == 0:
             exp = exps[0]
             if raised is None:
